@@ -255,4 +255,112 @@ Section Exact.
     destruct (ROUNDSCNT _ fuel [st0; st0] 0) as [[st' nb']| | |] eqn:R; cbn [bind] in H; try discriminate.
     inversion H; subst. simpl. eapply rounds_cnt_exact; [|eauto]. auto.
   Qed.
+
+  (* ----- a conflict reported by mergeIntoCriterion is a real one ----- *)
+  Local Notation MV := (matching_versions c_matching root).
+  Local Notation MVP := (matching_versions_pre c_versions c_matching has_pre constraint_ok match_pre ver_lt root).
+
+  Lemma client_err_code {A} (r : res A) e : client_err r = Err e -> (10 <= e)%N.
+  Proof.
+    destruct r as [a|e0|p|]; unfold client_err; try discriminate; intros H.
+    - assert (E : (EClientBase + e0 = e)%N) by congruence. unfold EClientBase in E. lia.
+    - assert (E : EClientBase = e) by congruence. unfold EClientBase in E. lia.
+    - assert (E : EClientBase = e) by congruence. unfold EClientBase in E. lia.
+  Qed.
+
+  Lemma mv_code rq e : MV rq = Err e -> (10 <= e)%N.
+  Proof.
+    unfold matching_versions. pose proof (client_err_code (c_matching rq)) as C.
+    destruct (client_err (c_matching rq)); cbn [bind]; auto; try discriminate.
+    destruct (negb _); [discriminate|]. destruct (vk_mem _ _); discriminate.
+  Qed.
+
+  Lemma gm_code pre rq e : GM pre rq = Err e -> (10 <= e)%N.
+  Proof.
+    unfold gm. destruct pre; [|apply mv_code].
+    unfold matching_versions_pre. destruct (has_pre _); [apply mv_code|].
+    pose proof (client_err_code (c_versions (vk_name rq))) as C.
+    destruct (client_err (c_versions (vk_name rq))) as [vs| | |]; cbn [bind]; auto; try discriminate.
+    destruct (negb _); [discriminate|].
+    destruct (filter_slice _ _ vs) as [k|e0| |] eqn:F; cbn [bind]; try discriminate.
+    intros _. exfalso.
+    (* the predicate never fails, so filter_slice does not either *)
+    assert (G : forall fuel l e1, filter_slice fuel
+              (fun v => Ok (N.eqb (vk_type v) version_type_concrete && match_pre (vk_ver rq) (vk_ver v))) l <> Err e1).
+    { induction fuel as [|fuel IH]; intros l e1; destruct l as [|x rest]; simpl; try discriminate.
+      destruct (_ && _).
+      - pose proof (IH rest e1). destruct (filter_slice fuel _ rest); simpl; try discriminate. auto.
+      - destruct rest; [discriminate | apply IH]. }
+    exact (G _ _ _ F).
+  Qed.
+
+  Lemma inter_all_code pre : forall rest m e, INTER pre m rest = Err e -> (10 <= e)%N.
+  Proof.
+    induction rest as [|r rs IH]; intros m e; simpl; [discriminate|].
+    pose proof (gm_code pre (rq_key r)) as G.
+    destruct (GM pre (rq_key r)); cbn [bind]; eauto; discriminate.
+  Qed.
+
+  (* an error of mergeIntoCriterion is the conflict or an error of the client *)
+  Lemma merge_code st rq par e : MERGE st rq par = Err e -> e = EConflict \/ (10 <= e)%N.
+  Proof.
+    unfold merge_into_criterion. destruct (existsb _ _); [discriminate|].
+    destruct (FIND _ _) as [m|e0| |] eqn:F; cbn [bind]; try discriminate.
+    - destruct m; [intros H; inversion H; auto | discriminate].
+    - intros H. inversion H; subst e0. clear H. unfold find_matches in F.
+      destruct (map fst _ ++ [rq]) as [|r0 rest]; [discriminate|].
+      pose proof (gm_code (ANYPRE (r0 :: rest)) (rq_key r0)) as G.
+      destruct (GM (ANYPRE (r0 :: rest)) (rq_key r0)) as [mvs| | |]; cbn [bind] in F; try discriminate; eauto.
+      destruct (filter _ mvs); [inversion F; auto|]. right. eapply inter_all_code; eauto.
+  Qed.
+
+  Theorem merge_conflict_sound st rq par :
+    exact_state st -> MERGE st rq par = Err EConflict ->
+    let c := crit_get_or_empty (criteria_of st) (rq_name rq) in
+    forall v, ~ (ALLOWED (reqs_of c ++ [rq]) v /\ ~ In v (c_incompat c)).
+  Proof.
+    intros X H c v [A B]. unfold merge_into_criterion in H. fold c in H.
+    destruct (existsb (same_info rq par) (c_info c)); [discriminate|].
+    fold (reqs_of c) in H.
+    destruct (FIND (reqs_of c ++ [rq]) (c_incompat c)) as [m|e| |] eqn:F; cbn [bind] in H; try discriminate.
+    - destruct m as [|m0 ms]; [|discriminate].
+      assert (Hne : reqs_of c ++ [rq] <> []) by (intros E; apply app_eq_nil in E as [_ E]; discriminate).
+      apply (proj2 (find_matches_exact _ _ _ F Hne v)). auto.
+    - inversion H; subst e. clear H.
+      unfold find_matches in F.
+      destruct (reqs_of c ++ [rq]) as [|r0 rest] eqn:Er; [discriminate|].
+      pose proof (gm_code (ANYPRE (r0 :: rest)) (rq_key r0)) as G.
+      destruct (GM (ANYPRE (r0 :: rest)) (rq_key r0)) as [mvs|e1| |] eqn:Eg; cbn [bind] in F; try discriminate.
+      2: { inversion F; subst e1. specialize (G _ eq_refl). unfold EConflict in G. lia. }
+      destruct (filter (fun mv => negb (vk_mem mv (c_incompat c))) mvs) as [|m0 ms] eqn:Ef.
+      + destruct (A r0 (or_introl eq_refl)) as (l' & G' & Hl'). rewrite Eg in G'. inversion G'; subst l'.
+        assert (In v (filter (fun mv => negb (vk_mem mv (c_incompat c))) mvs)).
+        { apply filter_In. split; auto. apply negb_true_iff. apply vk_mem_false. auto. }
+        rewrite Ef in H. contradiction.
+      + pose proof (inter_all_code _ _ _ _ F) as G1. unfold EConflict in G1. lia.
+  Qed.
+
+  (* the graph-level error raised while the direct dependencies are merged is justified: at the
+     requirement d where it stops, no version of d's package is admitted by d together with the
+     direct requirements merged before it *)
+  Theorem init_impossible_sound : forall deps st,
+    exact_state st -> INIT st deps = Err EImpossible ->
+    exists pre d post st1,
+      deps = pre ++ d :: post /\ INIT st pre = Ok st1 /\
+      let c := crit_get_or_empty (criteria_of st1) (rq_name d) in
+      forall v, ~ (ALLOWED (reqs_of c ++ [d]) v /\ ~ In v (c_incompat c)).
+  Proof.
+    induction deps as [|d ds IH]; simpl; intros st X H; [discriminate|].
+    destruct (MERGE st d root) as [nc|e| |] eqn:M; try discriminate.
+    - assert (X1 : exact_state {| mapping := mapping st; criteria_of := crit_put (criteria_of st) (fst nc) (snd nc) |})
+        by (apply put_exact; auto; eapply merge_exact; eauto).
+      destruct (IH _ X1 H) as (pre & d' & post & st1 & E & I1 & N).
+      exists (d :: pre), d', post, st1. split; [simpl; congruence|]. split; auto.
+      simpl. rewrite M. auto.
+    - destruct (N.eqb e EConflict) eqn:Ee.
+      2: { inversion H; subst e. destruct (merge_code _ _ _ _ M) as [E|E]; [discriminate | unfold EImpossible in E; lia]. }
+      apply N.eqb_eq in Ee. subst e.
+      exists [], d, ds, st. split; auto. split; auto.
+      apply (merge_conflict_sound _ _ _ X M).
+  Qed.
 End Exact.
